@@ -1689,14 +1689,27 @@ pub fn gen_plan_exact_disturbed(seed: u64, thorough: bool, pool: &[Pos], mates: 
     g.infinite = true;
     g.layout = rng.next_u64();
     let poll = p.knobs.poll_interval;
-    let mut lines = vec![other.render()];
+    let quiet = |pos: PosSpec, go: GoSpec, events: Vec<Ev>| Cycle { newgame: false, pos, pre_lines: vec![], go, ns_per_node: 1000, gap_ns: 1_000_000, jumps: vec![], stop_before_dequeue: false, events, post_lines: vec![] };
     if rng.chance(1, 2) {
-        lines.push("stop".into());
+        // variant A: a position for another game arrives during the search
+        let mut lines = vec![other.render()];
+        if rng.chance(1, 2) {
+            lines.push("stop".into());
+        }
+        let mut events = vec![Ev { at_node: poll * (1 + rng.below(3)), lines }];
+        events.push(Ev { at_node: events[0].at_node + poll * rng.below(3), lines: vec!["stop".into()] });
+        p.cycles.insert(at, quiet(PosSpec::Set { fen: searched.fen.clone(), moves: searched.moves.clone() }, g, events));
+    } else {
+        // variant B: the interrupted search is followed by a shallow search of the same position
+        // without a new position command: it must be exact for that position
+        let events = vec![Ev { at_node: poll * (1 + rng.below(4)), lines: vec!["stop".into()] }];
+        let mut g2 = GoSpec::depth(1 + rng.below(if piece_count(searched.root()) > 16 { 2 } else { 3 }));
+        g2.layout = rng.next_u64();
+        if !searched.has_repeated_position() && searched.root().half <= 40 {
+            p.cycles.insert(at, quiet(PosSpec::Keep, g2, vec![]));
+            p.cycles.insert(at, quiet(PosSpec::Set { fen: searched.fen.clone(), moves: searched.moves.clone() }, g, events));
+        }
     }
-    let mut events = vec![Ev { at_node: poll * (1 + rng.below(3)), lines }];
-    events.push(Ev { at_node: events[0].at_node + poll * rng.below(3), lines: vec!["stop".into()] });
-    let c = Cycle { newgame: false, pos: PosSpec::Set { fen: searched.fen.clone(), moves: searched.moves.clone() }, pre_lines: vec![], go: g, ns_per_node: 1000, gap_ns: 1_000_000, jumps: vec![], stop_before_dequeue: false, events, post_lines: vec![] };
-    p.cycles.insert(at, c);
     p
 }
 
